@@ -3,6 +3,7 @@ import contextlib
 import io
 import multiprocessing
 import random
+import signal
 import time
 
 from harness import common
@@ -11,9 +12,11 @@ from harness.common import clist, cbool
 FAMILY = 'parallel (real worker processes)'
 RULE = ('proto: random command sequences (send / get / end) driven against a real ParallelProcess object: which '
         'commands are refused and whether the worker is alive afterwards, compared with Model/Parallel.v; twin: '
-        'composites of 1-3 accumulating processes and a step with a random subset marked _parallel, run serially and '
+        'composites of 1-3 processes (accumulating ones and ones that SET the shared variable, so that the order of '
+        'application matters) and a step with a random subset marked _parallel, run serially and '
         'in parallel over random update/run_for sequences: emitted trajectory, final state and published composite '
-        'must be identical; Engine.end() called once, twice or left to __del__, after which no worker may be alive; '
+        'must be identical; Engine.end() called once, twice or left to __del__ under a 20 s watchdog, after which no '
+        'worker may be alive; a profiled engine whose worker returns a large profile at end(); '
         'delete: a compartment holding a parallel process is deleted while the process is idle or has an update in '
         'flight. Non-trivial: every case starts at least one worker.')
 ASSUMPTIONS = [
@@ -33,6 +36,12 @@ def generate(seed, tier, enlarged=False):
     cases = [
         # corpus: known finding K2 (deletion with an update in flight)
         {'kind': 'delete', 'ts': 3.0, 'at': 2, 'first': 'acc'},
+        # corpus: updates that do not commute, the parallel process listed first / last
+        {'kind': 'twin', 'procs': [{'ts': 1.0, 'par': True, 'cls': 'setter'}, {'ts': 1.0, 'par': False, 'cls': 'acc'}],
+         'step_par': False, 'calls': [[3.0, 'update']], 'end': 'once', 'profile': False},
+        {'kind': 'twin', 'procs': [{'ts': 1.0, 'par': False, 'cls': 'acc'}, {'ts': 1.0, 'par': True, 'cls': 'setter'},
+                                   {'ts': 1.0, 'par': False, 'cls': 'acc'}],
+         'step_par': True, 'calls': [[2.0, 'update'], [1.0, 'update']], 'end': 'twice', 'profile': False},
     ]
     for i in range(n):
         r = i % 7
@@ -48,7 +57,8 @@ def generate(seed, tier, enlarged=False):
             cases.append({'kind': 'proto', 'cmds': cs})
         elif r < 6:
             nproc = rng.randint(1, 3)
-            procs = [{'ts': rng.choice([0.5, 1.0, 1.0, 2.0]), 'par': rng.random() < 0.6} for _ in range(nproc)]
+            procs = [{'ts': rng.choice([0.5, 1.0, 1.0, 2.0]), 'par': rng.random() < 0.6,
+                      'cls': rng.choice(['acc', 'acc', 'setter'])} for _ in range(nproc)]
             if not any(p['par'] for p in procs):
                 procs[0]['par'] = True
             calls = [[rng.choice([1.0, 2.0, 0.5, 3.0]), rng.choice(['update', 'run', 'update'])]
@@ -56,11 +66,23 @@ def generate(seed, tier, enlarged=False):
             if calls[-1][1] == 'run':
                 calls[-1][1] = 'update'
             cases.append({'kind': 'twin', 'procs': procs, 'step_par': rng.random() < 0.3, 'calls': calls,
-                          'end': rng.choice(['once', 'twice', 'del'])})
+                          'end': rng.choice(['once', 'twice', 'del']), 'profile': False})
+            if i % 7 == 3 and (tier == 'thorough' or i < 7):
+                # a profiled engine whose parallel worker hands back a large profile when it is ended
+                cases.append({'kind': 'twin', 'procs': [{'ts': 1.0, 'par': True, 'cls': 'busy'}], 'step_par': False,
+                              'calls': [[1.0, 'update']], 'end': 'once', 'profile': True})
         else:
             cases.append({'kind': 'delete', 'ts': rng.choice([1.0, 3.0]), 'at': rng.choice([1, 2]),
                           'first': rng.choice(['acc', 'killer'])})
     return cases
+
+
+class EndHang(Exception):
+    pass
+
+
+def _alarm(signum, frame):
+    raise EndHang()
 
 
 def grace():
@@ -102,18 +124,19 @@ def run_proto(c):
 
 def build_twin(c, parallel):
     from vivarium.core.engine import Engine
-    from harness.par_kit import Acc, Doubler
+    from harness.par_kit import Acc, Doubler, Setter, Busy
     processes, topology = {}, {}
     for i, p in enumerate(c['procs']):
         params = {'pid': i, 'time_step': p['ts']}
         if parallel and p['par']:
             params['_parallel'] = True
-        processes['p%d' % i] = Acc(params)
+        processes['p%d' % i] = {'acc': Acc, 'setter': Setter, 'busy': Busy}[p.get('cls', 'acc')](params)
         topology['p%d' % i] = {'shared': ('shared',), 'own': ('own%d' % i,)}
     sp = {'_parallel': True} if (parallel and c['step_par']) else {}
     steps = {'d': Doubler(sp)}
     topology['d'] = {'shared': ('shared',)}
-    return Engine(processes=processes, steps=steps, flow={'d': []}, topology=topology, display_info=False)
+    return Engine(processes=processes, steps=steps, flow={'d': []}, topology=topology, display_info=False,
+                  profile=bool(c.get('profile')))
 
 
 def shape(d):
@@ -138,11 +161,21 @@ def run_twin(c):
                 state = {k: v for k, v in eng.state.get_value().items() if not isinstance(v, tuple)}
                 pub = {'processes': sorted(eng.processes.keys()), 'steps': sorted(eng.steps.keys()),
                        'topology': shape(eng.topology), 'flow': shape(eng.flow)}
-                if c['end'] in ('once', 'twice'):
-                    eng.end()
-                if c['end'] == 'twice':
-                    eng.end()
+                old = signal.signal(signal.SIGALRM, _alarm)
+                signal.setitimer(signal.ITIMER_REAL, 20)
+                try:
+                    if c['end'] in ('once', 'twice'):
+                        eng.end()
+                    if c['end'] == 'twice':
+                        eng.end()
+                finally:
+                    signal.setitimer(signal.ITIMER_REAL, 0)
+                    signal.signal(signal.SIGALRM, old)
                 del eng
+        except EndHang:
+            problems.append('EndHang: Engine.end() did not return within 20 s')
+            for ch in multiprocessing.active_children():
+                ch.terminate()
         except Exception as e:
             problems.append('%s: %s' % (type(e).__name__, str(e)[:150]))
             data, state, pub = None, None, None
@@ -195,7 +228,9 @@ def oracle(c, ob, rng):
     msgs = []
     if c['kind'] == 'twin':
         s, p = ob['serial'], ob['parallel']
-        if p['problems']:
+        if p['problems'] and p['problems'][0].startswith('EndHang'):
+            msgs.append(('Engine.end() hangs with a parallel worker (profile=%r)' % c.get('profile'), 'end-hangs'))
+        elif p['problems']:
             msgs.append(('the parallel run raised: ' + p['problems'][0], 'parallel-raised'))
         elif s['problems']:
             msgs.append(('the serial run raised: ' + s['problems'][0], 'serial-raised'))
